@@ -495,6 +495,7 @@ def sec_timing():
     eps = read_eps()
     wcmp, wtol = read_write_seq()
     read_sequence_patterns()
+    read_read_seq()
     CONSTS['timing_div_tol'] = ct['div_tol']
     out = HEADER % 'check_timing.py, calc_duration.py, Sequence/block.py::set_block, Sequence/write_seq.py, __init__.py (eps)'
     out += 'From PV Require Import Model.TimingSyntax.\n'
@@ -529,6 +530,22 @@ def sec_timing():
     out += 'Definition write_cmp : cmp := %s.\n' % wcmp
     out += 'Definition write_tol : Q := %s.\n' % coq_Q(wtol)
     return out
+
+
+def read_read_seq():
+    """read(): both block tables are REPLACED by what __read_blocks returns (no leftovers of the previous content)"""
+    tree, _ = parse('Sequence/read_seq.py')
+    fn = func(tree, 'read')
+    src = unparse(fn)
+    for p in ('self.block_events = {}', '(self.block_events, self.block_durations, delay_ind_temp) = result',
+              'result = __read_blocks('):
+        if p not in src and p.replace('(self.block_events, self.block_durations, delay_ind_temp)',
+                                      'self.block_events, self.block_durations, delay_ind_temp') not in src:
+            fail('read_seq.read: expected `%s`' % p)
+    for n in ast.walk(fn):
+        if isinstance(n, ast.Call) and isinstance(n.func, ast.Attribute) and n.func.attr in ('update', 'setdefault') \
+                and unparse(n.func.value) in ('self.block_events', 'self.block_durations'):
+            fail('read_seq.read merges into %s instead of replacing it' % unparse(n.func.value))
 
 
 SECTIONS = {'GenTiming': sec_timing}
